@@ -149,7 +149,17 @@ def check_tree(t, shape, names, maxcomp, only=None, kind="user"):
 
     m = tree.Model.from_shape(shape)
     sep = "/"
-    if kind.startswith("sep:"):
+    if kind == "tuplenode":
+        import collections
+
+        if "tuple" not in _SEPCLS:
+            base = collections.namedtuple("Entry", "kind size")
+
+            def init(self, name):
+                self.name = name
+            _SEPCLS["tuple"] = type("TupleNode", (base, anytree.NodeMixin), {"__new__": lambda c, name: base.__new__(c, "entry", 0), "__init__": init})
+        nodes = tree.build(m, lambda i, name: _SEPCLS["tuple"](name), "topdown", names=list(names))
+    elif kind.startswith("sep:"):
         sep = kind[4:]
         nodes = tree.build(m, _sep_factory(sep), "topdown", names=list(names))
     else:
@@ -390,7 +400,7 @@ def plan(tier):
                 if tier == "thorough" or len(set(names)) == 1 or n <= 2:
                     items.append((s, names, 4))
     # node classes with their own truth value / value semantics
-    for kind in ("falsy", "eqhash", "falsylight", "norepr", "sep:::", "sep:|", "sep:->"):
+    for kind in ("falsy", "eqhash", "falsylight", "norepr", "sep:::", "sep:|", "sep:->", "tuplenode"):
         for n in range(1, 4 if tier == "quick" else 5):
             for s in tree.plane_trees(n):
                 for names in itertools.product(("a", "A", "b"), repeat=n):
